@@ -55,7 +55,7 @@ CLAIMED["C06"] = dict(
 CLAIMED["C08"] = dict(
     text=("Proof with a symbolic limit: every size check of the stream codecs, readAll and writeAll refuses only messages over the limit and accepts messages exactly at "
           "the limit; a returned message never exceeds the limit; 64-bit length prefixes (up to 2^64-1) cannot bypass the check."),
-    note=TRUST + "Also covered: gRPC RecvMsg checks the size after decompression, SendMsg refuses only replies over the send limit, serveGRPC has exactly the seven reviewed refusal sites (no size-based refusal before the handler). Not decided: the WebSocket reader (no limit exists there; gobwas/ws), gzip internals.",
+    note=TRUST + "Also covered: gRPC RecvMsg checks the size after decompression, SendMsg refuses only replies over the send limit, serveGRPC has exactly the seven reviewed refusal sites (no size-based refusal before the handler). The WebSocket stream hands no message over the limit to the decoder (the limit did not exist there: fixed, d1b6f64), the stream is created with the mux's limit and no other function writes it. Not decided: what gobwas/ws buffers before larking sees the message, gzip internals.",
     ref="DESIGN.md section 5 C08")
 CLAIMED["C09"] = dict(
     text=("No-panic and termination obligations (index/slice bounds, nil dereference, failed type assertion, explicit panic, negative make, callee preconditions, loop and recursion variants) "
